@@ -335,6 +335,9 @@ def nested_doc(rng, sub, variant):
         return '<svg><specs>%s</specs><rect wh="4"/></svg>' % sub
     if variant == "fragment":
         return '<rect wh="3"/>\n%s\n<rect xy="^|h" wh="3"/>' % sub
+    if variant == "fragment-group":
+        # a host document without an <svg> root of its own
+        return '<rect id="q" wh="3"/>\n<g id="grp">\n<rect wh="3"/>%s</g>\n<circle r="2" cxy="#q@r"/>' % sub
     raise ValueError(variant)
 
 
@@ -360,7 +363,7 @@ def run_shard(ctx):
             budget = [rng.randint(0, 10)]
             inner = "".join(g2.element(2, budget) if rng.random() < 0.7 else g2.ser_text(rng.choice(TEXTS)) for _ in range(rng.randint(1, 4)))
             sub = '<svg xmlns="%s" data-verif-marker="1"%s>%s</svg>' % (SVGNS, rng.choice(["", ' width="5" height="5"', ' x="1" wh="3"', ' id="n"']), inner)
-            variant = rng.choice(["top", "group", "forward", "specs"])
+            variant = rng.choice(["top", "group", "forward", "specs", "fragment-group", "fragment"])
             doc2 = nested_doc(rng, sub, variant)
             check_case(ctx, dict(input=doc2.encode("utf-8"), subtree=sub.encode("utf-8"), cfg=docgen.gen_cfg(rng) if rng.random() < 0.5 else None,
                                  feats=sorted(g2.feats | {"nested"}), variant=variant))
